@@ -116,6 +116,11 @@ def run_impl(case):
         t = case['table']
         K = FormalContext(data=[list(r) for r in t], backend=case['backend'])
         build = case.get('build', 'from_context')
+        warm = case.get('warm', 0)
+        if warm:
+            # questions with non-default parameters put to the SAME context object before anything is built
+            from harness.c16c18_warm import warm_context
+            warm_context(K, t, warm, focus=_extents(t))
         if build == 'cbo_raw':
             L = ConceptLattice(list(cca.close_by_one(K)))            # generation order, not sorted
         elif build == 'latviz_file':
@@ -176,6 +181,10 @@ def run_impl(case):
                 for c in removed:
                     L.add(c)
         snaps = []
+        if warm:
+            # ... and again between building the lattice and computing the measures, on the lattice's own extents
+            from harness.c16c18_warm import warm_context
+            warm_context(K, t, warm + 1, focus=[tuple(sorted(c.extent_i)) for c in L])
         with warnings.catch_warnings():
             warnings.simplefilter('ignore')
             ops_list = case['ops_list']
@@ -239,6 +248,9 @@ def run_impl(case):
                     complete, fresh = (not step[1]), False
                 # 'calc' and 'read' change nothing; a '*_only' step and 'read' observe WITHOUT recomputing
                 ops = [] if (mutate_only or kind in ('read', 'derive')) else ops_list[k]
+                if ops and warm:
+                    from harness.c16c18_warm import warm_context
+                    warm_context(K, t, warm + 1 + k, focus=[tuple(sorted(c.extent_i)) for c in L])
                 if ops:
                     fresh = True
                 snaps.append(dict(_observe(L, K, ops, False), complete=complete, fresh=fresh))
@@ -308,7 +320,7 @@ def stats(case):
     o0 = case['ops_list'][0][0]
     return {'shape': '%dx%d' % (len(t), len(t[0])), 'backend': case['backend'], 'algo': case['algo'],
             'kind': case.get('kind', ''), 'first_op': OP_NAMES[o0[0]][o0[1]],
-            'build': case.get('build', 'from_context'),
+            'build': case.get('build', 'from_context'), 'context_warm_up': bool(case.get('warm')),
             'history': '+'.join(st[0] for st in case.get('history', [])) or 'none'}
 
 
@@ -337,6 +349,8 @@ def _mk(rng, t, kind, backend=None, algo=None, plain=False):
          'build': 'from_context', 'history': []}
     if plain:
         return c
+    if rng.random() < 0.5:
+        c['warm'] = rng.randrange(1, 10 ** 6)
     exts = _extents(t)
     inner = [list(e) for e in exts[1:-1]]          # neither top nor bottom
     r = rng.random()
